@@ -184,7 +184,14 @@ impl SimpleSerializer for StructBuilder {
     }
 
     fn serialize_tuple_element<V: Serialize + ?Sized>(&mut self, value: &V) -> Result<()> {
-        try_(|| self.element(self.next, value)).ctx(self)
+        try_(|| {
+            // ignore extra tuple elements
+            if self.next < self.fields.len() {
+                self.element(self.next, value)?;
+            }
+            Ok(())
+        })
+        .ctx(self)
     }
 
     fn serialize_tuple_end(&mut self) -> Result<()> {
